@@ -161,9 +161,21 @@ def gen_points(tape, n, dim, dtype, jitter=True):
 
 def gen_lengths(tape, n_traj, max_len=9):
     """Trajectory lengths, biased towards 1-frame trajectories and equal-length groups."""
-    mode = tape.draw(4)
+    mode = tape.draw(5)
     out = []
     base = tape.irange(1, max_len)
+    if mode == 4 and n_traj >= 3 and max_len >= 3:
+        # unequal lengths whose mean is the first length (n * lengths[0] == sum(lengths)): looks rectangular to a careless test
+        base = tape.irange(2, max_len - 1)
+        out = [base]
+        while len(out) + 2 <= n_traj:
+            dlt = tape.irange(1, min(base - 1, max_len - base))
+            out += [base - dlt, base + dlt]
+        while len(out) < n_traj:
+            out.append(base)
+        tail = out[1:]
+        order = tape.perm(len(tail))
+        return [out[0]] + [tail[i] for i in order]
     for i in range(n_traj):
         if mode == 0:
             out.append(base)                                  # all equal
